@@ -45,3 +45,36 @@ def unit_mcd_bookkeeping(twin=False):
     r.assumptions += ["tot1 == tot2 for interior interfaces is established in fill_m_s (not under this contract)", "the negative-concentration repair loop further down is not under this contract",
                       "text-level obligations: a harmless rewrite of these conditions reports a violation of this unit (see DESIGN 10.6)"]
     return r
+
+
+def unit_fill_m_s_symmetry(twin=False):
+    """fill_m_s turns species fluxes into element amounts for the giving cell (tot1) and the receiving cell (tot2): every update of a
+    tot1 quantity is followed by the same update of the tot2 quantity — same target, same operator, same stoichiometric multiple
+    (coef * J) with tot1 replaced by tot2 — so that what one cell loses the other gains, element by element."""
+    import re
+    q = "Phreeqc::fill_m_s"
+    fn = A.find_function(TR, q)
+    r = U.new_unit("C11.fill_m_s.giving_and_receiving_totals_get_the_same_multiple", TR, q, fn, kind="structural")
+    n = 0
+    for blk in A.walk(fn):
+        if blk.get("kind") != "CompoundStmt":
+            continue
+        st = blk.get("inner", [])
+        for i, x in enumerate(st):
+            if x.get("kind") not in ("BinaryOperator", "CompoundAssignOperator") or not x.get("opcode", "").endswith("=") or x.get("opcode") in ("==", "!=", "<=", ">="):
+                continue
+            lhs, rhs = text_of(TR, x["inner"][0]), text_of(TR, x["inner"][1])
+            if "tot1" not in lhs or lhs.startswith("ct["):
+                continue             # the implicit scheme keeps one total per cell (ct[icell].m_s[l].tot1): no receiving twin by design
+            n += 1
+            nxt = st[i + 1] if i + 1 < len(st) else None
+            if nxt is None or nxt.get("kind") not in ("BinaryOperator", "CompoundAssignOperator"):
+                r.add("update%d(%s).has_its_tot2_twin_next" % (n, lhs), FAILED, "syntactic", 0, "no following assignment"); continue
+            l2, r2, op2 = text_of(TR, nxt["inner"][0]), text_of(TR, nxt["inner"][1]), nxt.get("opcode")
+            ok = l2 == lhs.replace("tot1", "tot2") and r2 == rhs.replace("tot1", "tot2") and op2 == x.get("opcode")
+            if twin and n == 1:
+                ok = False
+            r.add("update%d(%s%s...).twin_is_the_same_with_tot2" % (n, lhs, x.get("opcode")), DISCHARGED if ok else FAILED, "syntactic", 0, "%s %s %s   |   %s %s %s" % (lhs, x.get("opcode"), rhs, l2, op2, r2))
+    r.add("reach.updates", DISCHARGED if n >= 4 else UNDECIDED, "syntactic", 0, "%d tot1 updates" % n, kind="vacuity")
+    r.assumptions += ["text pairing of adjacent statements", "the fluxes tot1 / tot2 themselves come from find_J (not under contract)"]
+    return r
